@@ -249,17 +249,90 @@ def check(run):
                 "each followed by a 'ping' to every block; plus all 2-block topologies exhaustively. "
                 "Observed: per event the exception class, Circuit.error, the ordered handler log, "
                 "handler nesting depth per block, acceptance of the follow-up events. "
-                "Non-trivial = >= 3 handler invocations; distinct by JSON.")
+                "Non-trivial = >= 3 handler invocations; distinct by JSON. Plus 150 FSM cases with exit "
+                "actions sending to their own FSM (model of C03) and 4 directed loops through library "
+                "blocks (Counter/OutputFunc.on_success, Input ping-pong, Counter/Repeat, Input/OutputFunc).")
     cases = [gen_case(run.rng) for _ in range(700 if run.tier == 'quick' else 8000)]
     cases += list(gen_small_exhaustive())
     for c in cases:
         run.count('nblocks=%d' % len(c['blocks']))
     res = common.standard_flow(run, spec, cases)
     check_fsm_guard(run)
+    check_library_loops(run)
     for c, o, ch in res:
         run.count('init_' + str(o['init_err']))
         for t in o['tops']:
             run.count('top_' + t['out'] + ('_aborted' if t['aborted'] else ''))
+
+
+LIB_LOOPS = ['counter_outputfunc_success', 'input_pingpong', 'counter_repeat', 'input_outputfunc_input']
+
+
+def check_library_loops(run):
+    """Event loops closed through the output events of LIBRARY blocks (OutputFunc.on_success, Repeat,
+    Input.on_output): the guard rule of the model applies to every chain of blocks - the event
+    that reaches a block which is still handling one must be refused with an EdzedCircuitError
+    and that error must stop the simulation; nothing may swallow it."""
+    import asyncio
+    from . import vloop
+    for name in LIB_LOOPS:
+        obs = dict(raised=None, error=None, ready=None)
+
+        async def main(loop, name=name, obs=obs):
+            edzed.reset_circuit()
+            circuit = edzed.get_circuit()
+            if name == 'counter_outputfunc_success':
+                edzed.Counter('cnt', on_output=edzed.Event('f', 'put', efilter=edzed.not_from_undef))
+                edzed.OutputFunc('f', func=lambda value: value, on_success=edzed.Event('cnt', 'inc'), on_error=None)
+                start = ('cnt', 'inc', {})
+            elif name == 'input_pingpong':
+                edzed.Input('a', initdef=0, on_output=edzed.Event('b', 'put', efilter=edzed.not_from_undef))
+                edzed.Input('b', initdef=0, on_output=edzed.Event(
+                    'a', 'put', efilter=(edzed.not_from_undef, edzed.DataEdit.modify('value', lambda v: v + 1))))
+                start = ('a', 'put', {'value': 5})
+            elif name == 'counter_repeat':
+                edzed.Counter('cnt', on_output=edzed.Event('rpt', 'inc', efilter=edzed.not_from_undef))
+                edzed.Repeat('rpt', dest='cnt', etype='inc', interval=10)
+                start = ('cnt', 'inc', {})
+            else:
+                edzed.Input('a', initdef=0, on_output=edzed.Event('f', 'put', efilter=edzed.not_from_undef))
+                edzed.OutputFunc('f', func=lambda value: value + 1,
+                                 on_success=edzed.Event('a', 'put'), on_error=None)
+                start = ('a', 'put', {'value': 1})
+            task = asyncio.create_task(circuit.run_forever())
+            await circuit.wait_init()
+            try:
+                edzed.ExtEvent(start[0], start[1]).send(**start[2])
+                obs['raised'] = None
+            except Exception as err:       # noqa
+                obs['raised'] = type(err).__name__ + ': ' + str(err)[:80]
+            await asyncio.sleep(0.01)
+            err, chain = circuit.error, []
+            while err is not None and len(chain) < 6:
+                chain.append(type(err).__name__ + ': ' + str(err)[:60] + ' ... ' + str(err)[-60:])
+                err = err.__cause__ or err.__context__
+            obs['error'] = ' <- '.join(chain)
+            obs['ready'] = circuit.is_ready()
+            try:
+                await circuit.shutdown()
+            except BaseException:          # noqa
+                pass
+        try:
+            vloop.run_virtual(main, wall_limit_s=10.0)
+        except BaseException as err:       # noqa
+            obs['harness'] = repr(err)[:200]
+        finally:
+            edzed.reset_circuit()
+        run.add_case(dict(library_loop=name), True)
+        run.count('library_loop')
+        ok = (obs.get('harness') is None and obs['raised'] is not None and 'EdzedCircuitError' in obs['raised']
+              and 'ecursive' in (obs['error'] or '') and obs['ready'] is False)
+        if not ok:
+            run.violation('monitor', dict(case=dict(library_loop=name), observed=obs),
+                          f"event loop through library blocks ({name}): the event that reached a block still "
+                          f"handling an event was not refused with an EdzedCircuitError stopping the "
+                          f"simulation: send() raised {obs['raised']}, Circuit.error={obs['error']}, "
+                          f"is_ready()={obs['ready']}", clause='library_loop:' + name, concrete=True)
 
 
 def check_fsm_guard(run):
